@@ -232,6 +232,7 @@ func runWorld(t *testing.T, res *vh.Result, tr *vh.Trace, wi int, sched []step, 
 		for k, v := range map[string]int{"oraclereq": 9, "oracleresp": 12, "ledger": 9, "role": 5, "deploy": 4, "vote": 3, "neo": 3, "policy": 2} {
 			w.gen.Weights[k] = v
 		}
+		w.gen.ScriptLedgerProbes(quietTo+1, last)
 		sched = longSchedule(names, quietFrom, quietTo, last)
 	}
 	tr.Emit(map[string]any{"event": "init", "world": wi, "replicas": names, "srih": srih, "small_mtb": smallMTB})
